@@ -1,4 +1,5 @@
 import DroopProofs.QpqLow
+import DroopProofs.QpqSum
 import DroopProofs.CaseInit
 import Props.C01
 import Props.Driver
@@ -108,6 +109,25 @@ theorem geps_zero : geps 0 = 1 := by decide
 end Droop.QPQ
 
 namespace Droop.QPQ
+
+/-- **C02 for QPQ, exact arithmetic**: run the QPQ model with exact rational arithmetic on any case with distinct candidate ids.  In
+    the state the loop of rounds returns — crash flag down, no restart pending — the fractions of a candidate that the ballots have
+    contributed (`Σ weight × multiplier` over all ballot lines, exhausted ones included) sum to exactly the number of candidates
+    elected.  `qpqBody_wsum` is the same statement for every single round.  (Under the guarded arithmetic the rule forces, the sum is
+    within the truncation allowance: judged on both records by the `okC02Qpq` oracle.) -/
+theorem qpq_contributions_exact (c : Case) (hnd : (c.cands.map (·.1)).Nodup) (fuel : Nat) (r : QSt ℚ)
+    (h : qpqLoop rationalArith fuel (qpqStart rationalArith (initState rationalArith c)) = some r)
+    (hcr : r.s.crash = none) (hr : r.restart = false) :
+    wsum r.s.ballots = (nEl r.s : ℚ) := by
+  have hwf : (initState rationalArith c).WF := by unfold St.WF; rw [initState_cids]; exact hnd
+  have hwf1 : (qpqStart rationalArith (initState rationalArith c)).s.WF := WF_of_stsig (qpqStart_stsig _ _) hwf
+  exact qpqLoop_wsum fuel _ r hwf1 (fun h0 => by cases h0) h hcr hr
+
+/-- non-vacuity: on the sample profile the loop returns with the flag down, no restart pending, one candidate elected and
+    contributions summing to 1 -/
+example : (qpqLoop rationalArith 20 (qpqStart rationalArith (initState rationalArith { Driver.sample with rule := "qpq" }))).map
+    (fun r => (r.s.crash, r.restart, wsum r.s.ballots, nEl r.s)) = some (none, false, 1, 1) := by decide +kernel
+
 /-- non-vacuity: the sample profile under QPQ lies in the domain, and its count ends without the crash flag (so the theorem
     says: one seat filled, everybody decided) -/
 example : caseOK { Driver.sample with rule := "qpq" } = true := by decide
